@@ -119,9 +119,10 @@ def _read_header(data, nrec):
     return recs, None
 
 
-def check_header(header, context=PRE, index=1, tail=b''):
-    """`header` is placed at record position `index` after `context`."""
-    data = context + header + b'\n' + tail
+def check_header(header, context=PRE, index=1, tail=b'', nl=b'\n'):
+    """`header` is placed at record position `index` after `context`; `nl`
+    is the file's header newline (LF, or CRLF when the context uses it)."""
+    data = context + header + nl + tail
     exp = expected(header)
     recs, exc = read_header(data, index)
     v = []
@@ -255,6 +256,9 @@ def plan(tier):
         k = 3 if tier == 'quick' else 4
         units.append(('tokens', npairs, k))
     units.append(('prefix',))
+    for a in range(len(ALPHA)):
+        units.append(('crlf-chars', a))
+    units.append(('crlf-tokens',))
     for kind in ('buffered-16', 'buffered-64', 'file'):
         units.append(('tokens-stream', kind))
     for lo in range(0, 256, 32):
@@ -428,6 +432,28 @@ def _run_unit(unit, tier, acc):
                     one(b'#.change: ' + tok + b'=v')
                     one(b'#.change: a=b, id=' + tok + b', c=d')
         acc.sample({'scale': 'option values / keys / counts of 9..65537'}, 1)
+    elif unit[0] in ('crlf-chars', 'crlf-tokens'):
+        # the same candidates inside a file whose header lines end in CRLF
+        # (the candidate is followed by CR LF; a CR INSIDE it is not part of
+        # the terminator)
+        crlf = {'context': to_jsonable(PRE.replace(b'\n', b'\r\n')),
+                'index': 1, 'nl': 'crlf'}
+        kw = {'context': PRE.replace(b'\n', b'\r\n'), 'index': 1,
+              'nl': b'\r\n'}
+        if unit[0] == 'crlf-chars':
+            pre = b'#.change:' + ALPHA[unit[1]]
+            for n in range(0, 4):
+                for t in itertools.product(ALPHA, repeat=n):
+                    one(pre + b''.join(t), crlf, **kw)
+            for hdr in (b'#.change:', b'#.change: a=b', b'#..file:',
+                        b'#diffx: version=1.0'):
+                for k in range(1, 4):
+                    one(hdr + b'\r' * k, crlf, **kw)
+        else:
+            doms = token_domains(1)
+            for vec in itertools.product(*doms):
+                one(b'#.change:' + build_tokens(list(vec), 1), crlf, **kw)
+        acc.sample({'crlf_header_context': True}, 1)
     elif unit[0] == 'tokens-stream':
         # the one-pair token product again, read through a buffered stream
         # / a real file (the grammar does not depend on the kind of stream)
@@ -567,6 +593,8 @@ def replay(payload):
         kw['index'] = payload['index']
     if 'tail' in payload:
         kw['tail'] = from_jsonable(payload['tail'])
+    if payload.get('nl') == 'crlf':
+        kw['nl'] = b'\r\n'
     STREAM[0] = payload.get('stream', 'bytesio')
     try:
         viols = check_header(from_jsonable(payload['header']), **kw)
